@@ -79,4 +79,17 @@ theorem C16_cex_sticky_found_flag :
     loadLoop true "other" false es = [.sql "tidy" "UPDATE ...", .py "AddField Gamma.note"] := by
   decide
 
+/-! ## which connection the SQL of new models is generated on -/
+
+/-- the connection `sql_create_models` works on (collecting the SQL switches constraint checking off there): the
+database being evolved when the alias is handed on, the default one otherwise -/
+def createModelsConnection (passesDatabase : Bool) (db : String) : String :=
+  if passesDatabase then db else "default"
+
+/-- **model creation touches no other connection**: for every database being evolved -/
+theorem C16_create_models_on_evolved_database (db : String) : createModelsConnection true db = db := rfl
+
+/-- every call of the current source hands the alias on (read by the translator on every run) -/
+theorem C16_source_create_models_pass_database : DEvo.Generated.createModelsPassDatabase = true := by decide
+
 end DEvo.Props.C16
